@@ -169,6 +169,8 @@ def gen(rng, i, tier):
         c["init"] = E.feasible_subset(rng, c["costs"], c["budget"])
     if rule == "increase" and c.get("base") in ("phragmen", "greedy") and rng.random() < 0.5:
         c["init"] = E.feasible_subset(rng, c["costs"], c["budget"])   # wrappers around rules that accept one
+    if c["init"]:
+        c["init_form"] = rng.choice(["list", "list", "tuple", "set", "gen", "iter", "alloc"])
     if rule == "maxw_ilp":
         # the property excludes the all-zero knapsack row (every undecided project costs 0): CBC aborts
         und = [j for j in range(n) if j not in c["init"]]
@@ -186,6 +188,19 @@ def _call(case):
     sat = E.sat_class(case["sat"])
     tb = E.tie_breaking(case["tb"], case["perm"])
     init = [projs[j] for j in case["init"]]
+    # the documented type is Iterable[Project]: hand the initial allocation over in every form
+    form = case.get("init_form", "list")
+    if form == "tuple":
+        init = tuple(init)
+    elif form == "set":
+        init = set(init)
+    elif form == "gen":
+        init = (p for p in list(init))
+    elif form == "iter":
+        init = iter(list(init))
+    elif form == "alloc":
+        from pabutools.rules.budgetallocation import BudgetAllocation
+        init = BudgetAllocation(init)
     res = case["resolute"]
     rule = case["rule"]
     if rule == "greedy":
@@ -222,7 +237,7 @@ def _call(case):
         else:
             f, params = R.sequential_phragmen, {"tie_breaking": tb}
         return R.exhaustion_by_budget_increase(inst, prof, f, params, resoluteness=res,
-                                               initial_budget_allocation=(init or None),
+                                               initial_budget_allocation=(init if case["init"] else None),
                                                exhaustive_stop=case["exhaustive_stop"],
                                                budget_step=pb.num(case["step"])), inst
     raise ValueError(rule)
